@@ -428,7 +428,8 @@ func (g *gen) nestedCases() {
 			in = g.genMultipart(5000+i, kinds, methods)
 			in.Chunked = true
 		default:
-			in = reqIn{Kind: "form", Method: "POST", RForm: g.form(rng.Range(1, 3)), CForm: g.form(1)}
+			// (client-level keys without control bytes: the wrapper's multipart uploads carry them too)
+			in = reqIn{Kind: "form", Method: "POST", RForm: g.form(rng.Range(1, 3)), CForm: g.mpForm(1, 0)}
 		}
 		in.Nested = rng.Range(1, 3)
 		r.Count("nested:" + in.Kind)
